@@ -493,6 +493,37 @@ def part_a4(chk, drv, impl):
                 objs.append((("Column@path", s), c))
                 objs.append((("SubQuery", s), impl.SubQuery(None, s, "al")))
                 objs.append((("SubQuery/alias2", s), impl.SubQuery(None, s, s)))
+    # entities PARSED from SQL by either analyzer (their attributes may be adjusted after construction, e.g. the schema of
+    # `SqlFluffTable.of`): they must obey eq => hash against directly constructed ones too (seeded mutant C16/2)
+    from sqllineage.runner import LineageRunner
+    parsed_sql = [
+        ("ansi", 'insert into "Db"."Sc"."Tb" select x."Ab", y.cd from "Sc"."Tb" x join sc.tb y on x.k = y.k'),
+        ("ansi", 'create table "Sc".t2 as select "Ab" from "Sc"."Tb"'),
+        ("mysql", "insert into `Sc`.`Tb` select `Ab` from `Db`.`Sc`.`Src` s"),
+        ("tsql", "insert into [Sc].[Tb] select [Ab] from [Sc].[Src]"),
+        ("non-validating", 'insert into "Sc"."Tb" select "Ab" from "Sc"."Src"'),
+    ]
+    with warnings.catch_warnings():
+        warnings.simplefilter("ignore")
+        for d_, q_ in parsed_sql:
+            try:
+                lr = LineageRunner(q_, dialect=d_)
+                ts = list(lr.source_tables) + list(lr.target_tables)
+                cs = [c for p_ in lr.get_column_lineage() for c in p_]
+            except Exception:
+                continue
+            for t_ in ts:
+                objs.append((("ParsedTable", f"{d_}:{t_}"), t_))
+                if hasattr(t_, "schema"):
+                    objs.append((("ParsedSchema", f"{d_}:{t_.schema}"), t_.schema))
+            for c_ in cs:
+                objs.append((("ParsedColumn", f"{d_}:{c_}"), c_))
+        for s_ in ['"Sc"', "`Sc`", "[Sc]", "Sc", "sc", '"Db"."Sc"', '"Sc"."Tb"', '"Db"."Sc"."Tb"', "sc.tb", '"Ab"']:
+            objs.append((("Schema", s_), impl.Schema(s_)))
+            try:
+                objs.append((("Table", s_), impl.Table(s_)))
+            except impl.LineageExc:
+                pass
     hashes = [hash(o) for _, o in objs]
     # model view of equality: same class, same printed name (Column: and same unique owner; SubQuery: same query text)
     def key(spec, o):
